@@ -215,6 +215,11 @@ def run(chk, repo, tier):
                     # where its own extent says; what that window is is the subject of C06-b
                     sums[-1] = None
                     det = f'out[<window of fields[k]>] += {fmt(rhs)}'
+                elif ra is not None and ra[0] == 'attr' and ra[2] == 'data' and ra[1][0] == 'idx' and ra[1][1] == ('sym', 'fields') \
+                        and key == nf.ELLIPSIS:
+                    # one-element fields on the origin summed into a 0-d accumulator: everything goes to the only sample
+                    sums[-1] = None if sums[-1] is False else sums[-1]
+                    det = det or f'out[...] += {fmt(rhs)}'
                 root = e.target.single_atom() if isinstance(e.target, Poly) else None
                 t = e.target
                 while isinstance(t, Poly) and t.single_atom() is not None and is_app(t.single_atom(), 'setitem'):
